@@ -4416,9 +4416,14 @@ fn parse_int_arg(value: &str) -> Result<isize, StamError> {
 
 /// Converts an argument that was classified as a float; a lone sign or period is a syntax error
 fn parse_float_arg(value: &str) -> Result<f64, StamError> {
-    value.parse().map_err(|_| {
-        StamError::QuerySyntaxError(format!("Expected a float, got '{}'", value), "")
-    })
+    //(a literal beyond the range of a float parses to infinity, which has no literal in the query language)
+    match value.parse::<f64>() {
+        Ok(float) if float.is_finite() => Ok(float),
+        _ => Err(StamError::QuerySyntaxError(
+            format!("Expected a float, got '{}'", value),
+            "",
+        )),
+    }
 }
 
 fn parse_dataoperator<'a>(
